@@ -297,6 +297,15 @@ Definition h_withdraw_norem (w : hworld) (a b : nat) (amount : Z) (all : bool) :
   let* _ := init_health_check_norem ac3 in
   Ok w3.
 
+(* lending_pool_close_bank as a yes / no question (the instruction itself deletes the bank account): the four guards *)
+Definition h_close_bank_probe (w : hworld) (b : nat) : res unit :=
+  let* hb := nth_bank w b in
+  let bk := hb_b hb in
+  let* _ := check (get_flag (b_flags bk) CLOSE_ENABLED_FLAG) (E E_BankCannotClose) in
+  let* _ := check ((b_lend_cnt bk =? 0) && (b_bor_cnt bk =? 0)) (E E_BankCannotClose) in
+  let* _ := check (is_zero_tol (b_tas bk) && is_zero_tol (b_tls bk)) (E E_BankCannotClose) in
+  check (is_zero_tol (b_em_rem bk)) (E E_BankCannotClose).
+
 (* lending_account_repay *)
 Definition h_repay (w : hworld) (a b : nat) (amount : Z) (all : bool) : res hworld :=
   let* hb := nth_bank w b in let* ac := nth_acct w a in
